@@ -114,6 +114,7 @@ def run(tier):
             ("dfs2", {"progs": PROGS["P2"], "preempt": 2, "max_runs": 3000, "spur": 1, "eintr": 1, "graph": "2"}),
             ("dfs2t", {"progs": [TAU + LAU, LAU], "preempt": 3, "max_runs": 3000, "spur": 1, "eintr": 0}),
             ("dfs3", {"progs": PROGS["P3"], "preempt": 2, "max_runs": 1500, "spur": 0, "eintr": 0}),
+            ("cov4", {"mode": "cover", "progs": [LAU + LAU, LAU + TAU, TAU + LAU, LAU], "runs": 300, "spur": 1, "eintr": 1}),
             ("rnd4", {"progs": [LAU + LAU, LAU + TAU, TAU + LAU, LAU], "runs": 150, "spur": 1, "eintr": 1}),
         ]
     else:
@@ -127,6 +128,7 @@ def run(tier):
             ("dfs3", {"progs": PROGS["P3"], "preempt": 3, "max_runs": 10000, "spur": 1, "eintr": 1, "graph": "3"}),
             ("dfs3b", {"progs": PROGS["P3b"], "preempt": 2, "max_runs": 10000, "spur": 0, "eintr": 0}),
             ("dfs4", {"progs": PROGS["P4t"], "preempt": 2, "max_runs": 10000, "spur": 0, "eintr": 0}),
+            ("cov4", {"mode": "cover", "progs": [LAU + LAU, LAU + TAU, TAU + LAU, LAU + LAU], "runs": 6000, "spur": 1, "eintr": 1}),
             ("rnd4", {"progs": [LAU + LAU, LAU + TAU, TAU + LAU, LAU + LAU], "runs": 3000, "spur": 1, "eintr": 1}),
         ]
     stress = {"threads": 4, "sections": 1500} if tier == "quick" else {"threads": 8, "sections": 10000}
